@@ -18,6 +18,8 @@
  *   early 1                the response starts arriving at once (before the request can have been read)
  *   cancel K               cancel after K non-blocking loop iterations (if still pending)
  *   fail K once|persist    allocation failure plan
+ *   https                  https_request started and cancelled at once (ownership of the host name)
+ *   tls                    the whole scenario over https_request: netbuf_ssl and network_ssl under http.c, a scripted engine
  */
 #include <sys/time.h>
 #include <sys/wait.h>
@@ -38,6 +40,72 @@
 #include "fakekernel.h"
 #include "fakenet.h"
 
+/* (the OpenSSL headers clash with the library's own SHA256 names: the few things needed are declared here) */
+typedef struct ssl_st SSL;
+#define SSL_ERROR_NONE		0
+#define SSL_ERROR_WANT_READ	2
+#define SSL_ERROR_WANT_WRITE	3
+#define SSL_ERROR_SYSCALL	5
+#define SSL_ERROR_ZERO_RETURN	6
+
+/*
+ * The TLS transport ("tls" programs): https_request over netbuf_ssl and network_ssl, with the engine's plaintext side mapped onto
+ * the scripted socket - SSL_read_ex / SSL_write_ex take their answers from the same scripts as recv / send (data in the same
+ * fragments; would-block and interrupted become "want read" / "want write"; end of file alternates between a clean TLS end and a
+ * socket end; errors become SSL_ERROR_SYSCALL with that errno), so that one response script exercises both transports.
+ */
+static int tls_fd = -1, tls_err, tls_eofs;
+int __real_SSL_set_fd(SSL *, int);
+int __wrap_SSL_set_fd(SSL *, int);
+int __wrap_SSL_read_ex(SSL *, void *, size_t, size_t *);
+int __wrap_SSL_write_ex(SSL *, const void *, size_t, size_t *);
+int __wrap_SSL_get_error(const SSL *, int);
+int __wrap_SSL_shutdown(SSL *);
+int
+__wrap_SSL_set_fd(SSL * s, int fd)
+{
+
+	tls_fd = fd;
+	return (__real_SSL_set_fd(s, fd));
+}
+int
+__wrap_SSL_read_ex(SSL * s, void * buf, size_t num, size_t * done)
+{
+	ssize_t r = __wrap_recv(tls_fd, buf, num, 0);
+
+	(void)s;
+	*done = 0;
+	if (r > 0) { *done = (size_t)r; tls_err = SSL_ERROR_NONE; return (1); }
+	if (r == 0) { tls_err = (tls_eofs++ & 1) ? SSL_ERROR_SYSCALL : SSL_ERROR_ZERO_RETURN; errno = 0; return (0); }
+	tls_err = (errno == EAGAIN || errno == EWOULDBLOCK || errno == EINTR) ? SSL_ERROR_WANT_READ : SSL_ERROR_SYSCALL;
+	return (0);
+}
+int
+__wrap_SSL_write_ex(SSL * s, const void * buf, size_t num, size_t * done)
+{
+	ssize_t r = __wrap_send(tls_fd, buf, num, MSG_NOSIGNAL);	/* (this transport guards against SIGPIPE by other means) */
+
+	(void)s;
+	*done = 0;
+	if (r > 0) { *done = (size_t)r; tls_err = SSL_ERROR_NONE; return (1); }
+	tls_err = (r < 0 && (errno == EAGAIN || errno == EWOULDBLOCK || errno == EINTR)) ? SSL_ERROR_WANT_WRITE : SSL_ERROR_SYSCALL;
+	return (0);
+}
+int
+__wrap_SSL_get_error(const SSL * s, int ret)
+{
+
+	(void)s; (void)ret;
+	return (tls_err);
+}
+int
+__wrap_SSL_shutdown(SSL * s)
+{
+
+	(void)s;
+	return (1);
+}
+
 static int ncb;
 static int noop_ran;
 
@@ -56,7 +124,7 @@ vt_hexstr(const char * k, const char * s)
 	vt_hex(k, s, strlen(s));
 }
 
-static int use_https;
+static int use_https, use_tls;
 static int cb_rc, cb_returned;	/* what the callback is told to return / has returned in this run */
 static int
 http_cb(void * cookie, struct http_response * res)
@@ -131,7 +199,7 @@ runk(void)
 
 	vt_begin("run_call"); vt_end();
 	rc = events_run();
-	vt_begin("run_ret"); vt_int("rc", rc); vt_int("cbrc", cb_returned); common(); vt_end();
+	vt_begin("run_ret"); vt_int("rc", rc); vt_int("cbrc", cb_returned); if (use_tls) vt_bool("tls", 1); common(); vt_end();
 	cb_returned = 0;
 	if (kk != NULL && !noop_ran)
 		events_timer_cancel(kk);
@@ -204,6 +272,8 @@ run_child(void)
 		} else if (sscanf(l, "txcount %d", &txcount) == 1) {
 		} else if (strncmp(l, "https", 5) == 0) {
 			use_https = 1;
+		} else if (strncmp(l, "tls", 3) == 0) {
+			use_https = 1; use_tls = 1;
 		} else if (sscanf(l, "cbrc %d", &cb_rc) == 1) {
 		} else if (strncmp(l, "syslog", 6) == 0) {
 			warnp_syslog(1);	/* (warnings go to syslog instead of stderr: a property of the process, not of the request) */
@@ -308,7 +378,7 @@ run_child(void)
 		__real_free(strs); __real_free(hh); __real_free(rq);
 	}
 	vt_begin("http_request"); vt_bool("ok", cookie != NULL); common(); vt_end();
-	if (cookie != NULL && use_https) {
+	if (cookie != NULL && use_https && !use_tls) {
 		http_request_cancel(cookie);
 		vt_begin("cancel"); common(); vt_end();
 	} else if (cookie != NULL) {
@@ -325,7 +395,7 @@ run_child(void)
 			for (i = 0; i < 400000 && ncb == 0; i++) {
 				vt_begin("run_call"); vt_end();
 				k = events_run();
-				vt_begin("run_ret"); vt_int("rc", k); vt_int("cbrc", cb_returned); common(); vt_end();
+				vt_begin("run_ret"); vt_int("rc", k); vt_int("cbrc", cb_returned); if (use_tls) vt_bool("tls", 1); common(); vt_end();
 				cb_returned = 0;
 				if (k != 0)
 					break;		/* the loop reported a fatal error (allocation failure) */
